@@ -239,7 +239,7 @@ def run(pid, build_replay):
     if not exe:
         return {"undecided": [f"bounded stand-in: the real crate does not build: {err}"], "failures": []}
     rnd = random.Random(1000 + int(os.environ.get("VERIF_SEED", "0") or 0))
-    scs = fixed_scenarios() + [scenario(rnd) for _ in range(int(os.environ.get("VERIF_SUBTYPE_SCENARIOS", "1500")))]
+    scs = fixed_scenarios() + [scenario(rnd) for _ in range(int(os.environ.get("VERIF_SUBTYPE_SCENARIOS", "1500")) * (100 if int(os.environ.get("VERIF_STANDIN_SCALE", "1")) > 1 else 1))]
     cmds = ["st " + encode(env, qs) for env, qs in scs]
     p = subprocess.run([exe], input="\n".join(cmds) + "\n", capture_output=True, text=True, timeout=900)
     outs = [l.strip() for l in p.stdout.splitlines()]
